@@ -244,11 +244,11 @@ def XlsbSheet.ok (rels : List (Text × String)) (s : XlsbSheet) : Prop :=
   s.tabId < 4294967296 ∧ s.relUnits.length < 2147483648 ∧ s.nameUnits.length < 2147483648 ∧
   (∀ u ∈ s.relUnits, u < 65536) ∧ (∀ u ∈ s.nameUnits, u < 65536) ∧
   ∃ target kind, rels.lookup (Biff.decodeUtf16 s.relUnits) = some target ∧
-    kindOfPath Gen.xlsbKindTable ("xl/".toList ++ target.toList) = some kind
+    kindOfPath Gen.xlsbKindTable (xlsxPath target.toList) = some kind
 
 /-- kind and path the reader derives from the relationship -/
 def XlsbSheet.pathOf (rels : List (Text × String)) (s : XlsbSheet) : List Char :=
-  "xl/".toList ++ ((rels.lookup (Biff.decodeUtf16 s.relUnits)).getD "").toList
+  xlsxPath ((rels.lookup (Biff.decodeUtf16 s.relUnits)).getD "").toList
 
 def XlsbSheet.decoded (rels : List (Text × String)) (s : XlsbSheet) : Sheet Text × List Char :=
   (⟨Biff.decodeUtf16 s.nameUnits, (kindOfPath Gen.xlsbKindTable (s.pathOf rels)).getD .workSheet, s.vis⟩, s.pathOf rels)
